@@ -74,8 +74,8 @@ TRUSTED = [
     "Stream.__init__ on one argument), `super().__iter__()` = the data slot, `list(it.tee(v, n))` = n copies of the output of "
     "teeOf, in thub `isinstance(data, Iterable)` is false exactly for Src.const, in lazy_itertools.tee "
     "`isinstance(data, K)` holds for an object of the pool exactly when Stream is among K and `tuple(Stream(cp) for cp in "
-    "it.tee(data, n))` = mkSrc on the object, teeOf, n new Streams (the else arm, n times the same object, is the call "
-    "layer's hand-written elabCall .tee), Stream.__init__ is read over the call layer's argument lists (CArg: literal "
+    "it.tee(data, n))` = mkSrc on the object, teeOf, n new Streams (the else arm on a non-iterable, n times the same object, and the default n=2 are "
+    "the call layer's elabCall .tee: src_tee_call_is_model; a non-iterable is an instance of none of Stream / Iterator / Iterable), Stream.__init__ is read over the call layer's argument lists (CArg: literal "
     "list, non-iterable, existing object, endless iterable; src_init_is_model: its interpretation is elabArgs) and its data "
     "expressions are the constructors of Src whose iterator terms mkSrc gives: iter(list) = .src, iter(object) = the object's "
     "iterator / one use of a hub, it.repeat(v) = .cyc [v], it.cycle(dargs) = .cyc, it.chain(*[iter(a) ...]) = chainSrc / the "
@@ -161,7 +161,7 @@ MANIFEST = {
             "function all of this is about is the interpretation of the method bodies as regenerated from the source on every "
             "run (src_step_is_model; per method src_take_is_model, src_take_mode_is_model, src_copy_is_model, src_peek_is_model, "
             "src_skip_is_model, src_limit_is_model, src_append_is_model, src_map_is_model, src_filter_is_model, "
-            "src_hub_copy_is_model, src_hub_methods_are_model, src_hub_init_is_model, src_thub_is_model, src_tee_is_model, src_init_is_model; src_signatures_are_model)",
+            "src_hub_copy_is_model, src_hub_methods_are_model, src_hub_init_is_model, src_thub_is_model, src_tee_is_model, src_tee_call_is_model, src_init_is_model; src_signatures_are_model)",
     "note": "defect D1 (take/peek/limit/skip past the end raise RuntimeError under PEP 479) is recorded as known "
             "with four signatures; proposed_fixes/D1-take-past-end.diff repairs it (check then prints no finding)",
     "technique": "translator harness/props/c03_tr.py: the bodies of 18 Stream / StreamTeeHub methods (Stream.__init__ included), of thub and of lazy_itertools.tee are read from "
@@ -1523,7 +1523,7 @@ def _translator_checks(eng):
         "theorems": ["src_take_mode_is_model", "src_take_is_model", "src_copy_is_model", "src_hub_copy_is_model",
                      "src_peek_is_model", "src_skip_is_model", "src_limit_is_model", "src_append_is_model",
                      "src_map_is_model", "src_filter_is_model", "src_hub_methods_are_model", "src_hub_init_is_model",
-                     "src_thub_is_model", "src_tee_is_model", "src_init_is_model", "src_step_is_model",
+                     "src_thub_is_model", "src_tee_is_model", "src_tee_call_is_model", "src_init_is_model", "src_step_is_model",
                      "src_signatures_are_model"],
         "not_translated": TR.NOT_TRANSLATED,
     }
